@@ -126,8 +126,26 @@ func fieldNames(set lp.Settings) (level, ts, msg, caller, errf string) {
 	return name(set.LevelField, "level"), name(set.TimeField, "time"), name(set.MessageField, "message"), name(set.CallerField, "caller"), name(set.ErrorField, "error")
 }
 
+func newDecoyWriter() zerolog.ConsoleWriter {
+	return zerolog.NewConsoleWriter(func(x *zerolog.ConsoleWriter) {
+		x.Out, x.NoColor = io.Discard, true
+		x.FieldsOrder = []string{"zz", "absent", "b", "a"}
+		x.FieldsExclude = []string{"nothing"}
+		x.PartsExclude = []string{"none"}
+	})
+}
+
 // check renders c and compares with the reference. Returns "", fullyChecked, nontrivial.
 func check(c *Case) (msg string, full bool, nontrivial bool) {
+	// a writer built by NewConsoleWriter at start-up, before the application sets its globals (every other
+	// case): whatever the constructor looks at then must not stick
+	var early *zerolog.ConsoleWriter
+	if c.Opts.ViaNew && len(c.Line)%2 == 0 && c.Set.LevelField == nil && c.Set.TimeField == nil && c.Set.MessageField == nil && c.Set.CallerField == nil {
+		// (NewConsoleWriter fills PartsOrder with the part names of the moment: with field names customised
+		// later, those entries name ordinary fields, which is what PartsOrder then says)
+		e := newDecoyWriter()
+		early = &e
+	}
 	restore := c.Set.Apply()
 	defer restore()
 	// decode with the references (last duplicate wins)
@@ -148,12 +166,10 @@ func check(c *Case) (msg string, full bool, nontrivial bool) {
 	if c.Opts.ViaNew {
 		// built by NewConsoleWriter with other options first, reconfigured afterwards (an application
 		// applying its configuration to a writer it was handed): the fields set last are what counts
-		w = zerolog.NewConsoleWriter(func(x *zerolog.ConsoleWriter) {
-			x.Out, x.NoColor = io.Discard, true
-			x.FieldsOrder = []string{"zz", "absent", "b", "a"}
-			x.FieldsExclude = []string{"nothing"}
-			x.PartsExclude = []string{"none"}
-		})
+		w = newDecoyWriter()
+		if early != nil {
+			w = *early
+		}
 		w.Out = &out
 		w.FieldsOrder, w.FieldsExclude, w.PartsExclude, w.TimeFormat = c.Opts.FieldsOrder, c.Opts.FieldsExclude, c.Opts.PartsExclude, c.Opts.TimeFormat
 		if c.Opts.PartsOrder != nil {
